@@ -547,6 +547,28 @@ def run(tier):
                      "resend of a flight with ChangeCipherSpec the epoch is re-used while rsn restarts at 0 (nonce reuse "
                      "under the unchanged key)", file=itb.relfile, line=itb.line)
     res.instance("C17.R2", "incrTwoByte: value stored through the epoch parameter depends on largestEpoch", ok, finding=f_)
+    # ... on every sending call: the loads from largestEpoch lie under the fact `sending` and under nothing else
+    gfi = cu.guard_facts(itb)
+    pname = itb.params[2]["n"] if len(itb.params) > 2 else "sending"
+    nld = 0
+    for b in itb.blocks:
+        for i, ln, x in cu.block_exprs(b):
+            for n in walk(x):
+                if n.get("k") == "bin" and n["op"] == "=" and field_of(n["r"]) == LEPOCH and (strip(n["l"]) or {}).get("k") == "idx":
+                    nld += 1
+                    facts = set(gfi.get(b["id"], frozenset()))
+                    extra = sorted(t_ for (t_, tr) in facts if t_ != pname)
+                    ok2 = (pname, True) in facts and not extra
+                    f2 = None
+                    if not ok2:
+                        f2 = Finding(PROP, "C17.R2", "incrTwoByte", "sending epoch taken from largestEpoch only under an extra condition",
+                                     "incrTwoByte (line %s) loads the counter from ssl->largestEpoch under the additional condition(s) %s: on the "
+                                     "other sending calls (e.g. a retransmitted ChangeCipherSpec / Finished flight) the epoch is bumped from its "
+                                     "current, already used value and the record sequence number restarts at 0 under the same key" % (ln, extra or "none - but not under `%s`" % pname),
+                                     file=itb.relfile, line=ln)
+                    res.instance("C17.R2", "incrTwoByte:%s load from largestEpoch under exactly `%s`" % (ln, pname), ok2, finding=f2)
+    if nld == 0:
+        raise AnalysisBroken("C17.R2: incrTwoByte no longer loads from largestEpoch")
     # ... and only when sending (the read-side expectedEpoch must not jump)
     # dtlsResendFlight: the rsn restore is on the ChangeCipherSpec-resend path before the re-encode
     rf = prog.fn("dtlsResendFlight", required=False)
